@@ -212,6 +212,12 @@ class BehavioralRTLIRTypeCheckVisitorL1( bir.BehavioralRTLIRNodeVisitor ):
     # At L1 it's always signal assignment
     is_rhs_reinterpretable = not node.value._is_explicit
     if is_rhs_reinterpretable and ((not lhs_type(rhs_type)) or (rhs_type != lhs_type)):
+      # Check if any implicit truncation happens
+      if isinstance( lhs_type, rdt.Vector ) and isinstance( rhs_type, rdt.Vector ) and \
+         lhs_type.get_length() < rhs_type.get_length():
+        raise PyMTLTypeError( s.blk, node.ast,
+          f'LHS target#{i+1} has {lhs_type.get_length()} bits but the integer '
+          f'on the RHS requires more bits ({rhs_type.get_length()})!' )
       s.enforcer.enter( s.blk, target.Type, node.value )
 
     rhs_type = node.value.Type.get_dtype()
